@@ -393,6 +393,63 @@ impl Hist {
     }
 }
 
+impl Hist {
+    /// A pile: 256-330 parallel edges between one pair (both orientations mixed), then as many
+    /// removals of that pair, with lookups in between - counts per neighbour that wrap or saturate.
+    fn generate_pile(&self, rng: &mut Rng) -> HistSc {
+        let fl = self.flavours();
+        let mut flavour = fl[rng.below(fl.len())].to_string();
+        if let Some(f) = crate::runner::only_flavour() {
+            if fl.contains(&f.as_str()) {
+                flavour = f;
+            }
+        }
+        let n = rng.range(2, 3);
+        let (a, b) = (0, 1);
+        let mut next_edge = 100;
+        let mut initial = Vec::new();
+        let pile = rng.range(256, 330);
+        let one_way = rng.coin();
+        for _ in 0..pile {
+            next_edge += 1;
+            if one_way || rng.chance(3, 4) {
+                initial.push((a, b, next_edge));
+            } else {
+                initial.push((b, a, next_edge));
+            }
+        }
+        if n == 3 {
+            next_edge += 1;
+            initial.push((a, 2, next_edge));
+        }
+        let h = crate::model::Prov::Own;
+        let mut ops = Vec::new();
+        for i in 0..rng.range(250, pile + 5) {
+            ops.push(Op::Disconnect { u: a, k: b, h });
+            if i % 64 == 63 || i > 250 {
+                ops.push(match rng.below(3) {
+                    0 => Op::IsConnected { u: a, k: b },
+                    1 => {
+                        next_edge += 1;
+                        Op::TryConnect { u: a, v: b, e: next_edge, h }
+                    }
+                    _ => Op::FindOut { u: a, k: b },
+                });
+            }
+        }
+        HistSc {
+            flavour,
+            prios: (0..n).map(|_| rng.below(4) as u32).collect(),
+            in_graph: false,
+            hash_seed: rng.next_u64(),
+            initial,
+            ops,
+            monitor: *rng.pick(&[0u8, 1]),
+            check_every: 16,
+        }
+    }
+}
+
 impl Engine for Hist {
     type Sc = HistSc;
 
@@ -406,6 +463,9 @@ impl Engine for Hist {
         }
         if rng.chance(1, 60) {
             return self.generate_star(rng);
+        }
+        if rng.chance(1, 3000) {
+            return self.generate_pile(rng);
         }
         let fl = self.flavours();
         let mut flavour = fl[rng.below(fl.len())].to_string();
